@@ -71,31 +71,36 @@ impl BufferedWriter for HtmlWriter {
 
 impl std::io::Write for HtmlWriter {
     fn write(&mut self, buf: &[u8]) -> std::io::Result<usize> {
+        // What is written here is text (e.g. a line of source code that is quoted in a
+        // diagnostic), not markup. Escape it in the same way as `html_format` does.
+        let text = String::from_utf8_lossy(buf);
+        let text = html_escape::encode_text(&text);
+        let text = text.as_bytes();
+
         if let Some(color) = &self.color {
             if color.fg() == Some(&Color::Red) {
                 self.buffer
                     .write_all("<span class=\"numbat-diagnostic-red\">".as_bytes())?;
-                let size = self.buffer.write(buf)?;
+                self.buffer.write_all(text)?;
                 self.buffer.write_all("</span>".as_bytes())?;
-                Ok(size)
             } else if color.fg() == Some(&Color::Blue) {
                 self.buffer
                     .write_all("<span class=\"numbat-diagnostic-blue\">".as_bytes())?;
-                let size = self.buffer.write(buf)?;
+                self.buffer.write_all(text)?;
                 self.buffer.write_all("</span>".as_bytes())?;
-                Ok(size)
             } else if color.bold() {
                 self.buffer
                     .write_all("<span class=\"numbat-diagnostic-bold\">".as_bytes())?;
-                let size = self.buffer.write(buf)?;
+                self.buffer.write_all(text)?;
                 self.buffer.write_all("</span>".as_bytes())?;
-                Ok(size)
             } else {
-                self.buffer.write(buf)
+                self.buffer.write_all(text)?;
             }
         } else {
-            self.buffer.write(buf)
+            self.buffer.write_all(text)?;
         }
+
+        Ok(buf.len())
     }
 
     fn flush(&mut self) -> std::io::Result<()> {
